@@ -796,6 +796,8 @@ class Extractor:
         if s.orelse:
             self.walk_body(s.orelse)
 
+    st_AsyncFor = st_For
+
     def _bind_loop_target(self, target, it: Term, loopid: int) -> list[Term]:
         """Binds the loop target; normalises enumerate/zip to a shared index binder."""
         binders: list[Term] = []
